@@ -13,6 +13,12 @@ pub enum Kind {
     Panic,
     /// reply invoked / not invoked / at the wrong place or contract
     ReplyPresence,
+    /// a reply the model expects for a FAILED sub-message (reply_on Error/Always) did not happen:
+    /// a failure that had to be caught was not
+    ReplyMissingForFailure,
+    /// the invocation trace diverged, the model says the transaction fails, the real one returned
+    /// Ok: a failure that had to propagate was absorbed
+    AbsorbedFailure,
     /// reply id / payload / Ok-Err kind wrong
     ReplyArgs,
     /// events inside Reply.result are not what the sub-message produced
@@ -171,7 +177,9 @@ pub fn compare(world: &World, start: &MState, prog: &Program, real: &RealOut, mo
         trace_div = true;
         let ctx = json!({"index": i, "real": short_rec(r), "model": short_rec(m)});
         let kind = if r.kind != m.kind || r.contract != m.contract || r.node != m.node {
-            if r.kind == EntryKind::Reply || m.kind == EntryKind::Reply {
+            if m.kind == EntryKind::Reply && m.reply.as_ref().map_or(false, |x| !x.ok) && !(r.kind == EntryKind::Reply && r.reply.as_ref().map_or(false, |x| !x.ok)) {
+                Kind::ReplyMissingForFailure
+            } else if r.kind == EntryKind::Reply || m.kind == EntryKind::Reply {
                 Kind::ReplyPresence
             } else {
                 Kind::EntryPresence
@@ -223,10 +231,21 @@ pub fn compare(world: &World, start: &MState, prog: &Program, real: &RealOut, mo
     if !trace_div && real.trace.len() != model.trace.len() {
         trace_div = true;
         let (extra, side) = if real.trace.len() > n { (&real.trace[n], "real-has-extra") } else { (&model.trace[n], "real-is-missing") };
-        let kind = if extra.kind == EntryKind::Reply { Kind::ReplyPresence } else { Kind::EntryPresence };
+        let kind = if extra.kind == EntryKind::Reply {
+            if side == "real-is-missing" && extra.reply.as_ref().map_or(false, |x| !x.ok) {
+                Kind::ReplyMissingForFailure
+            } else {
+                Kind::ReplyPresence
+            }
+        } else {
+            Kind::EntryPresence
+        };
         out.push(Divergence { kind, detail: json!({"index": n, "side": side, "rec": short_rec(extra)}) });
     }
     if trace_div {
+        if real.result.is_ok() && model.result.is_err() && real.panicked.is_none() {
+            out.push(Divergence { kind: Kind::AbsorbedFailure, detail: json!({"model": "Err", "real": "Ok", "first_trace_divergence": out.last().map(|d| format!("{:?}", d.kind))}) });
+        }
         return out;
     }
     // outcome
